@@ -9,16 +9,24 @@ from mc import pool, seams, factory_engine as F
 CHARS = ["a", ",", " ", "[", "]", "é", "b", "\"", "\\", "\r\n", "\n"]
 
 
-def values(maxlen):
+# condition forms whose values the factory writes as members of a list: the "already quoted" convention of scalar string arguments
+# does not apply to them, a value that starts (and ends) with a double quote is a value like any other
+LIST_RENDERED = {"exists1", "exists3", "notexists2", "exists-repeat", "envelope-repeat", "envelope:is", "envelope:lists", "envelope:notis", "address:lists",
+                 "address:str+list", "body:raw", "body:text2", "body:raw-not", "currentdate:is", "currentdate:value", "currentdate:notis", "dup:[A,B,A]"}
+
+
+def values(maxlen, leading_quote=False):
     out = []
     for n in range(1, maxlen + 1):
         for tup in itertools.product(CHARS, repeat=n):
             v = "".join(tup)
             if v != v.strip():
                 continue  # values surrounded by white space are not in the claim's alphabet
-            if v.startswith('"'):
+            if v.startswith('"') and not leading_quote:
                 continue  # taken by the factory as already quoted (the exclusion stated with C06)
             out.append(v)
+    if leading_quote:
+        out += ['"unsubscribe"', '"a, b"', '"\\"']
     # long values: every length 2^k - 1, 2^k, 2^k + 1
     unit = 'a, ]b["é\\'
     for k in range(5, 11 if maxlen <= 3 else 15):
@@ -225,7 +233,7 @@ def form_task(t):
     n = 0
     distinct = set()
     sample = None
-    vals = values(maxlen)
+    vals = values(maxlen, leading_quote=(not is_action and name in LIST_RENDERED))
     if name in ("size:over", "size:under", "keep", "discard+stop"):
         vals = ["x"]
     for V in vals:
